@@ -966,34 +966,65 @@ func c05TreeEnvs(root *c05Env, maxDepth int) []*c05Env {
 type c05PassSpec struct {
 	Instr func(in ssa.Instruction, e *c05Env) bool
 	Edges func(e *c05Env) []Edge
+	// Success: the obligation is "every SUCCESSFUL path passes": a helper with
+	// an error result counts when each of its possibly-nil-error returns
+	// passes; at the call site only the err==nil edge of the helper's error
+	// (or returning that error as is) counts as having passed.
+	Success bool
 }
 
 // c05PassCut: the instructions/edges of e.Fn that count as "passing": direct
 // matches and calls of helpers every path of which passes.
 func c05PassCut(e *c05Env, sp c05PassSpec) *cut {
+	ct, _ := c05PassCut2(e, sp)
+	return ct
+}
+
+// c05PassCut2 additionally returns the error values whose being returned as
+// they are means "passed or failed" (results of success-mode helpers).
+func c05PassCut2(e *c05Env, sp c05PassSpec) (*cut, map[ssa.Value]bool) {
 	ct := newCut()
+	direct := map[ssa.Value]bool{}
 	AllInstrs(e.Fn, func(in ssa.Instruction) {
 		if sp.Instr != nil && sp.Instr(in, e) {
 			ct.Instr(in)
 			return
 		}
-		if call, ok := in.(*ssa.Call); ok && e.depth() < 3 {
-			if h := c05Helper(call, e.Fn); h != nil {
-				for a := e; a != nil; a = a.Parent {
-					if a.Fn == h {
-						return
+		call, ok := in.(*ssa.Call)
+		if !ok || e.depth() >= 3 {
+			return
+		}
+		h := c05Helper(call, e.Fn)
+		if h == nil {
+			return
+		}
+		for a := e; a != nil; a = a.Parent {
+			if a.Fn == h {
+				return
+			}
+		}
+		child := &c05Env{Fn: h, Call: call, Parent: e}
+		if sp.Success && ErrResultIndex(h.Signature) >= 0 {
+			if c05SuccessPasses(child, sp) {
+				if ev := ErrOf(call); ev != nil {
+					al := Aliases(ev)
+					ne, _, _ := NilTests(e.Fn, al)
+					ct.Edges(ne...)
+					for a := range al {
+						direct[a] = true
 					}
 				}
-				if c05AlwaysPasses(&c05Env{Fn: h, Call: call, Parent: e}, sp) {
-					ct.Instr(in)
-				}
 			}
+			return
+		}
+		if c05AlwaysPasses(child, sp) {
+			ct.Instr(in)
 		}
 	})
 	if sp.Edges != nil {
 		ct.Edges(sp.Edges(e)...)
 	}
-	return ct
+	return ct, direct
 }
 
 // c05AlwaysPasses: every path from the entry of e.Fn to a return passes.
@@ -1013,6 +1044,31 @@ func c05AlwaysPasses(e *c05Env, sp c05PassSpec) bool {
 		}
 	}
 	return n > 0
+}
+
+// c05SuccessPasses: every return of e.Fn whose error may be nil passes (or
+// hands on the verdict of a helper for which that holds); deferred code cannot
+// clear the error.
+func c05SuccessPasses(e *c05Env, sp c05PassSpec) bool {
+	if ErrResultIndex(e.Fn.Signature) < 0 {
+		return c05AlwaysPasses(e, sp)
+	}
+	ct, direct := c05PassCut2(e, sp)
+	if len(ct.instrs) == 0 && len(ct.edges) == 0 && len(direct) == 0 {
+		return false
+	}
+	if c05DeferKeepsError(e.Fn) != "" {
+		return false
+	}
+	for _, a := range c05MaybeNilAtoms(e.Fn) {
+		if direct[a.Val] || direct[strip(a.Val)] {
+			continue
+		}
+		if !c05AtomMustPass(a, ct) {
+			return false
+		}
+	}
+	return true
 }
 
 func c05CutInstrs(ct *cut) []ssa.Instruction {
